@@ -1191,3 +1191,25 @@ def match_table(ctx, rule, sites, table, panic_abort, prop_label, closure=None):
                "panic-capable site reachable from %s is neither machine-discharged nor in the reviewed table: %s" % (prop_label, s.detail[:300]),
                s.loc(), {"function": s.fn.qname, "kind": s.kind, "callee": s.callee, "operand": s.opterm})
     return auto, len(found), still_new
+
+
+def ret_values(ctx, g):
+    """[(bb, term)] of every value stored into the return place of g (or an alias of it); moves between return-place
+    aliases are skipped."""
+    from engine import query as Q
+    T = ctx.T(g)
+    RL = Q.ret_locals(g)
+    out = []
+    for bi, b in enumerate(g.blocks):
+        for s in b["s"]:
+            if s["k"] == "assign" and not s["p"].get("pr") and s["p"]["l"] in RL:
+                r = s["r"]
+                if r["k"] == "use":
+                    pl = r["o"].get("m") or r["o"].get("c")
+                    if pl is not None and not pl.get("pr") and pl["l"] in RL:
+                        continue
+                out.append((bi, T.rvalue(r)))
+        t = b["t"]
+        if t["k"] == "call" and not t["dest"].get("pr") and t["dest"]["l"] in RL and "decl" in t["f"]:
+            out.append((bi, T.call_term(t)))
+    return out
